@@ -25,35 +25,39 @@ RECURSIVE Rep(_, _)
 Rep(bs, n) == IF n = 0 THEN <<>> ELSE bs \o Rep(bs, n - 1)
 Nm(prefix, n) == prefix \o ToString(n)
 
-Plain == [stmts |-> <<Text("i"), PrintS(NameE("x"))>>, defs |-> <<>>, out |-> S2B("iq"), inh |-> FALSE]
+(* `out` is a function of what the variable v prints at the place of the piece: nothing outside loops, the element inside
+   (the innermost leaf prints v, so a captured text that is reused across iterations or calls shows) *)
+VV == {<<>>, <<49>>, <<50>>}
+Plain == [stmts |-> <<Text("i"), PrintS(NameE("x")), PrintS(NameE("v"))>>, defs |-> <<>>, out |-> [vv \in VV |-> S2B("iq") \o vv], inh |-> FALSE]
 ParentLeaf == [stmts |-> <<BlockS("pz", <<Text("p:"), PrintS(CallE("parent", <<>>)), Text(":p")>>)>>,
-               defs |-> <<>>, out |-> S2B("p:Pq:p"), inh |-> TRUE]
+               defs |-> <<>>, out |-> [vv \in VV |-> S2B("p:Pq:p")], inh |-> TRUE]
 
 Wrap(kind, n, in) ==
   CASE kind = "setcap" ->
          LET t == n % 3 IN
          [stmts |-> <<Text("["), SetCap(Nm("c", n), in.stmts), Text("]")>> \o [q \in 1..t |-> PrintS(NameE(Nm("c", n)))],
-          defs |-> in.defs, out |-> S2B("[]") \o Rep(in.out, t), inh |-> in.inh]
+          defs |-> in.defs, out |-> [vv \in VV |-> S2B("[]") \o Rep(in.out[vv], t)], inh |-> in.inh]
     [] kind = "filter" ->
          [stmts |-> <<Text("("), FilterS(FilterNames(n), in.stmts), Text(")")>>,
-          defs |-> in.defs, out |-> S2B("(") \o ApplyF(FilterNames(n), in.out) \o S2B(")"), inh |-> in.inh]
+          defs |-> in.defs, out |-> [vv \in VV |-> S2B("(") \o ApplyF(FilterNames(n), in.out[vv]) \o S2B(")")], inh |-> in.inh]
     [] kind = "macro" ->
-         [stmts |-> <<Text("M"), PrintS(AttrCall(NameE("_self"), Nm("m", n), <<>>)), Text("W")>>,
-          defs |-> in.defs \o <<MacroS(Nm("m", n), <<>>, in.stmts)>>, out |-> S2B("M") \o in.out \o S2B("W"), inh |-> in.inh]
+         (* v is handed on as the macro's argument (a macro body does not read the caller's variables in Twig) *)
+         [stmts |-> <<Text("M"), PrintS(AttrCall(NameE("_self"), Nm("m", n), <<NameE("v")>>)), Text("W")>>,
+          defs |-> in.defs \o <<MacroS(Nm("m", n), <<"v">>, in.stmts)>>, out |-> [vv \in VV |-> S2B("M") \o in.out[vv] \o S2B("W")], inh |-> in.inh]
     [] kind = "blockfn" ->
          [stmts |-> <<IfS(BoolE(FALSE), <<BlockS(Nm("b", n), in.stmts)>>, <<>>, FALSE),
                       Text("<"), PrintS(CallE("block", <<StrE(Nm("b", n))>>)), Text(">")>>,
-          defs |-> in.defs, out |-> S2B("<") \o in.out \o S2B(">"), inh |-> in.inh]
+          defs |-> in.defs, out |-> [vv \in VV |-> S2B("<") \o in.out[vv] \o S2B(">")], inh |-> in.inh]
     [] kind = "loop" ->
          [stmts |-> <<ForS("", "v", ArrE(<<IntE(1), IntE(2)>>), NoE, in.stmts \o <<PrintS(NameE("v"))>>, <<>>, FALSE)>>,
-          defs |-> in.defs, out |-> in.out \o <<49>> \o in.out \o <<50>>, inh |-> in.inh]
+          defs |-> in.defs, out |-> [vv \in VV |-> in.out[<<49>>] \o <<49>> \o in.out[<<50>>] \o <<50>>], inh |-> in.inh]
 
 RECURSIVE Build(_, _, _)
 Build(kinds, n, in) == IF kinds = <<>> THEN in ELSE Build(Tail(kinds), n + 1, Wrap(Head(kinds), n, in))
 
 KindSeqs == UNION {[1..d -> Kinds] : d \in 1..MaxDepth}
 (* two consecutive constructs at the same level, output after them *)
-Twice(p) == [stmts |-> p.stmts \o <<Text("+")>> \o p.stmts, defs |-> p.defs, out |-> p.out \o <<43>> \o p.out, inh |-> p.inh]
+Twice(p) == [stmts |-> p.stmts \o <<Text("+")>> \o p.stmts, defs |-> p.defs, out |-> [vv \in VV |-> p.out[vv] \o <<43>> \o p.out[vv]], inh |-> p.inh]
 
 (* the macros of an inheriting program are defined in the base template (a child's top level is not executed),
    so the overriding block of the parent() leaf must not sit inside a macro body *)
@@ -66,7 +70,7 @@ Templates(p) ==
   THEN ("base" :> p.defs \o <<Text("^"), BlockS("main", <<Text("BASE"), BlockS("pz", <<Text("P"), PrintS(NameE("x"))>>)>>), Text("$")>>)
        @@ ("t" :> <<ExtendsS(StrE("base")), BlockS("main", <<Text("S")>> \o p.stmts \o <<Text("E")>>)>>)
   ELSE ("t" :> p.defs \o <<Text("^S")>> \o p.stmts \o <<Text("E$")>>)
-Expected(p) == S2B("^S") \o p.out \o S2B("E$")
+Expected(p) == S2B("^S") \o p.out[<<>>] \o S2B("E$")
 
 Cases == SetToSeq(Pieces)
 Picked == 1..Len(Cases)
